@@ -17,6 +17,10 @@ A2. label-order lattice — the Cartesian basis for every preset as given and re
 B. alias lattice    — every alias x every entry point that takes a user coefficient dictionary x
    d in {+-50, +-123}: the call with {alias: d} must give the same observable result as the call with
    the canonical symbol ({"defocus": d} == {"C10": -d}).
+B0. explicit zeros  — every spelling (25 canonical symbols + 7 aliases) x every numeric zero (0, 0.0, -0.0, NumPy / torch
+   scalars) x validate / standardize / HyperparameterState (override, optimized, initial, optimized_keys) / reconstruct
+   override: a zero is a VALUE (canonical key present with value 0; on top of a stored non-zero value the surface on the grid
+   is the one of the set with that coefficient zero); None alone means unset.
 D. call histories   — every single call, ordered pair (thorough: triple) of calls of fit_aberrations_from_shifts and of
    the surface / basis / gradient / conversion / merge functions, from alphabets built to collide on coarse keys (same grid,
    sampling and mask pixel count with different masks; same mask, other coefficients; other wavelength / rotation; same
@@ -65,7 +69,10 @@ CLAIM = (
     "describe the same function to 1e-12 relative, and the analytic polar and Cartesian gradients equal the wavelength times "
     "the autograd derivative of the library's own surface and an independent per-term closed form. Every alias at every entry "
     "point that accepts a user coefficient dictionary gives the same observable result as the canonical symbol "
-    "('defocus': d == 'C10': -d). Shifts predicted by the public gradient functions and fed to fit_aberrations_from_shifts "
+    "('defocus': d == 'C10': -d), and an explicit zero of any numeric type (int, float, -0.0, NumPy and torch scalars) under any of "
+    "the 32 spellings is a value, not 'unset' (only None is): alone it yields the canonical key with value 0, and on top of a "
+    "stored non-zero value (override / optimized / full set, reconstruct override) the surface is the one of the set with that "
+    "coefficient zero. Shifts predicted by the public gradient functions and fed to fit_aberrations_from_shifts "
     "return the generating defocus, astigmatism and rotation on the whole identifiable grid, also when the astigmatism axis sits at a "
     "multiple of pi/8 (one Cartesian component exactly zero, or both of equal magnitude), for magnitude ratios C12/|C10| from 0 and "
     "1e-6 to 0.9 and for sets given as pure C12_a / pure C12_b Cartesian components (compared as Cartesian components and as the "
@@ -85,7 +92,9 @@ RULE = (
     "pair of distinct labels, 7 permutations of the 25 labels, 5 least-squares-fit basis forms (non-trivial: the list is not "
     "ascending in radial order), and call histories: every single call, ordered pair (thorough: triple) over 39 fit calls and "
     "37 calls of the other functions, modules re-imported per history, last call judged (non-trivial: an earlier call differs "
-    "from the last); (B) entry point x alias x value; (C) detector shape x mask x C10 x C12 x phi12 x rotation "
+    "from the last); (B) entry point x alias x value, and (B0) spelling (25 symbols + 7 aliases) x zero value "
+    "(9 numeric zeros; None) x operation (non-trivial: the stored set holds a non-zero value whose removal changes the surface "
+    "or reconstruction); (C) detector shape x mask x C10 x C12 x phi12 x rotation "
     "inside |C12|<|C10|, |rotation|<pi/2, and (C2) detector shape x mask x C10 x form {polar, Cartesian} x ratio C12/|C10| x axis "
     "(every multiple of pi/8; Cartesian: 8 directions with exact zeros) x rotation. A point is non-trivial when the surface is not identically zero (A), when the "
     "canonical call differs observably from the call without the coefficient (B), or always (C); distinct = distinct "
@@ -1104,8 +1113,218 @@ def eval_alias(case):
     return t
 
 
+# ----------------------------------------------------------------------------- part B0: falsy legal values (an explicit zero is a value)
+# A coefficient given as 0 is a legal value, not "unset": only None means unset. Every spelling of every coefficient (25
+# canonical symbols + 7 aliases) x every numeric zero Python / NumPy / torch offer x every dictionary-taking entry point,
+# alone and on top of a state that holds a NON-ZERO value for the same coefficient (where dropping the entry is visible).
+# bool is left out on purpose (float(False) is accepted by the unchanged tree, but a flag is not a coefficient value).
+FALSY = {
+    "0": lambda: 0,
+    "0.0": lambda: 0.0,
+    "-0.0": lambda: -0.0,
+    "np.float64(0)": lambda: np.float64(0.0),
+    "np.float32(0)": lambda: np.float32(0.0),
+    "np.int64(0)": lambda: np.int64(0),
+    "np.array(0.0)": lambda: np.array(0.0),
+    "torch.tensor(0.)": lambda: torch.tensor(0.0),
+    "torch.tensor(0)": lambda: torch.tensor(0),
+}
+FALSY_DP = ["0.0", "0"]  # values run through a DirectPtychography object (one build per point)
+FALSY_ORDER_C = {1: 150.0, 2: 4000.0, 3: 2.0e5, 4: 6.0e6, 5: 3.0e8}  # comparable phase at 30 mrad for every order
+FALSY_DP_BASE = {"C10": -80.0, "C12": 40.0, "phi12": 0.37, "C21": 4000.0, "phi21": 0.5, "C30": 5.0e5, "C50": 5.0e8}
+FALSY_KEYS = None  # filled below: spelling -> (canonical symbol, n, m)
+_FALSY_DP_CACHE = {}
+
+
+def falsy_keys():
+    global FALSY_KEYS
+    if FALSY_KEYS is None:
+        FALSY_KEYS = {s: (s, int(s[-2]), int(s[-1])) for s in MY_POLAR}
+        for a, (canon, _sign, _scale, _ctx) in MY_ALIASES.items():
+            FALSY_KEYS[a] = (canon, int(canon[-2]), int(canon[-1]))
+    return FALSY_KEYS
+
+
+def falsy_base(seed):
+    """All 25 symbols non-zero (float32-representable, so that the float32 entry point is exact); the seed fills the values."""
+    rng = np.random.default_rng([seed, 12, 79])
+    cs = []
+    for i, (n, m) in enumerate(TERMS):
+        C = FALSY_ORDER_C[n] * (1 + 0.1 * m) * (-1) ** i * (1 + 0.2 * rng.random())
+        cs.append([n, m, float(np.float32(C)), float(np.float32(0.37 - 0.11 * m)) if m else None])
+    return cs
+
+
+def falsy_expected(cs, canon, n, m):
+    out = []
+    for n_, m_, C, ph in cs:
+        if (n_, m_) == (n, m):
+            out.append([n_, m_, C, 0.0] if canon.startswith("phi") else [n_, m_, 0.0, ph])
+        else:
+            out.append([n_, m_, C, ph])
+    return out
+
+
+def _lib_surface(co, lam):
+    from quantem.diffractive_imaging.complex_probe import aberration_surface
+
+    return _np(aberration_surface(_t(A2), _t(P2), lam, {k: float(v) for k, v in co.items()}))
+
+
+def falsy_dict_case(case, verbose=False):
+    """case = {"part": "falsy", "level": "dict", "key", "z", "seed"} -> (fails, [(op, nontrivial, outcome)])."""
+    from quantem.core.utils.validators import validate_aberration_coefficients as V
+
+    key, zn, seed = case["key"], case["z"], case["seed"]
+    canon, n, m = falsy_keys()[key]
+    eps = entry_points()
+    have_S = eps["standardize_aberration_coefs"][1]
+    have_H = eps["HyperparameterState"][1]
+    if have_S:
+        from quantem.diffractive_imaging.complex_probe import standardize_aberration_coefs as S
+    if have_H:
+        from quantem.diffractive_imaging.direct_ptychography import HyperparameterState as H
+    lam = _lams()[0]
+    base = falsy_base(seed)
+    base_d = polar_floats(base)
+    base_wo = {k: v for k, v in base_d.items() if k != canon}
+    want_cs = falsy_expected(base, canon, n, m)
+    scale = term_scale(base, lam)
+    chi_want = ref_surface(want_cs, A2, P2, lam)
+    chi_base = ref_surface(base, A2, P2, lam)
+    visible = rel(chi_want, chi_base, scale) > 1e-3  # dropping the entry changes the surface
+    fails, points = [], []
+    z = FALSY[zn]
+
+    def judge(op, fn, alone=False, want=None, unset=False):
+        cls = {"part": "falsy", "op": op, "spelling": "alias" if key in MY_ALIASES else "canonical"}
+        shown = "None" if unset else zn
+        try:
+            with quiet():
+                got = fn()
+            got = {k: float(v) for k, v in got.items()}
+        except Exception as e:
+            fails.append((dict(cls, relation="zero_accepted"), f"{op} with {{{key!r}: {shown}}}: raised {type(e).__name__}: {e}"))
+            points.append((op, True, "raised"))
+            return
+        if alone:
+            ok = (got == {}) if unset else (sorted(got) == [canon] and got[canon] == 0.0)
+            if not ok:
+                fails.append((dict(cls, relation="none_is_unset" if unset else "explicit_zero_is_a_value"), f"{op}({{{key!r}: {shown}}}) = {got}, expected {dict() if unset else {canon: 0.0}}"))
+            points.append((op, True, sorted(got)))
+            return
+        target, tname = (chi_base, "the stored set") if unset else (chi_want, f"the set with {canon} = 0")
+        dev = rel(_lib_surface(got, lam), target, scale)
+        held = got.get(canon, None)
+        ok = dev <= TOL_ALIAS and (unset or held == 0.0)
+        if not ok:
+            fails.append(
+                (
+                    dict(cls, relation="none_is_unset" if unset else "explicit_zero_replaces_stored_value"),
+                    f"{op}: {{{key!r}: {shown}}} on top of a set holding {canon} = {base_d[canon]!r}: resulting {canon} = {held!r}; the surface on the 9x14 grid deviates "
+                    f"from the surface of {tname} by {dev:.3e} of its scale (tolerance {TOL_ALIAS:g})",
+                )
+            )
+        points.append((op, visible, [round(dev, 9), held]))
+        if verbose:
+            print(f"  {op:58s} {{{key!r}: {shown}}} -> {canon} = {held!r}, surface deviation {dev:.3e}")
+
+    judge("validate_aberration_coefficients(alone)", lambda: V({key: z()}), alone=True)
+    judge("validate_aberration_coefficients(in a full set)", lambda: V({**base_wo, key: z()}))
+    if have_S:
+        judge("standardize_aberration_coefs(alone)", lambda: S({key: z()}), alone=True)
+        judge("standardize_aberration_coefs(in a full set)", lambda: S({**base_wo, key: z()}))
+    if have_H:
+        judge("HyperparameterState.current_aberrations(override)", lambda: H(initial_aberrations=dict(base_d)).current_aberrations({key: z()}))
+        judge("HyperparameterState(optimized over initial)", lambda: H(initial_aberrations=dict(base_d), optimized_aberrations={key: z()}).current_aberrations())
+        judge("HyperparameterState(override over optimized)", lambda: H(optimized_aberrations=dict(base_d)).current_aberrations({key: z()}))
+        judge("HyperparameterState(initial, full set)", lambda: H(initial_aberrations={**base_wo, key: z()}).current_aberrations())
+    if case.get("first"):  # independent of the zero's type: None means unset; names of optimised coefficients keep their meaning
+        judge("validate_aberration_coefficients(None alone)", lambda: V({key: None}), alone=True, unset=True)
+        if key != canon:  # an alias set to None next to its canonical symbol: the canonical value stays
+            judge("validate_aberration_coefficients(alias None in a full set)", lambda: V({**base_d, key: None}), unset=True)
+        if have_H:
+            judge("HyperparameterState.current_aberrations(override None)", lambda: H(initial_aberrations=dict(base_d)).current_aberrations({key: None}), unset=True)
+            cls = {"part": "falsy", "op": "HyperparameterState(optimized_keys)", "spelling": "alias" if key in MY_ALIASES else "canonical"}
+            try:
+                with quiet():
+                    ks = set(H(optimized_keys={key, "rotation_angle"}).optimized_keys)
+                if ks != {canon, "rotation_angle"}:
+                    fails.append((dict(cls, relation="optimized_key_keeps_its_coefficient"), f"HyperparameterState(optimized_keys={{{key!r}, 'rotation_angle'}}).optimized_keys = {sorted(ks)}, expected {sorted({canon, 'rotation_angle'})}"))
+                points.append((cls["op"], True, sorted(ks)))
+            except Exception as e:
+                fails.append((dict(cls, relation="zero_accepted"), f"HyperparameterState(optimized_keys={{{key!r}}}): raised {type(e).__name__}: {e}"))
+                points.append((cls["op"], True, "raised"))
+    return fails, points
+
+
+def _falsy_dp_recon(dp, **kw):
+    return {k: dp.reconstruct(deconvolution_kernel=k, **kw).corrected_bf.detach().numpy().copy() for k in ("prlx", "ssb")}
+
+
+def falsy_dp_case(case, verbose=False):
+    """An explicit zero as reconstruct(override_aberration_coefs=...) on an object whose state holds a non-zero value:
+    equals the reconstruction of an object built with that coefficient zero."""
+    key, zn, seed = case["key"], case["z"], case["seed"]
+    canon, n, m = falsy_keys()[key]
+    op = "reconstruct(override_aberration_coefs) on a stored non-zero value"
+    cls = {"part": "falsy", "op": op, "spelling": "alias" if key in MY_ALIASES else "canonical"}
+    with quiet():
+        if (canon, seed) not in _FALSY_DP_CACHE:
+            if "base" not in _FALSY_DP_CACHE:
+                _FALSY_DP_CACHE["base"] = _falsy_dp_recon(make_dp(FALSY_DP_BASE, seed))
+            _FALSY_DP_CACHE[(canon, seed)] = _falsy_dp_recon(make_dp({**FALSY_DP_BASE, canon: 0.0}, seed))
+        want, stored = _FALSY_DP_CACHE[(canon, seed)], _FALSY_DP_CACHE["base"]
+        try:
+            got = _falsy_dp_recon(make_dp(FALSY_DP_BASE, seed), override_aberration_coefs={key: FALSY[zn]()})
+        except Exception as e:
+            return [(dict(cls, relation="zero_accepted"), f"{op} with {{{key!r}: {zn}}}: raised {type(e).__name__}: {e}")], [(op, True, "raised")]
+    diffs = compare_obs(got, want)
+    visible = bool(compare_obs(want, stored))
+    fails = []
+    if diffs:
+        same_as_stored = not compare_obs(got, stored)
+        fails.append(
+            (
+                dict(cls, relation="explicit_zero_replaces_stored_value"),
+                f"{op}: override {{{key!r}: {zn}}} on an object built with {FALSY_DP_BASE} differs from the reconstruction of an object built with {canon} = 0"
+                + (" (it equals the reconstruction with the stored value: the zero was dropped)" if same_as_stored else "")
+                + ": "
+                + "; ".join(diffs[:3]),
+            )
+        )
+    if verbose:
+        print(f"  override {{{key!r}: {zn}}}: {summ(got)}\n  object built with {canon} = 0: {summ(want)}\n  stored set: {summ(stored)}")
+    return fails, [(op, visible, summ(want))]
+
+
+def eval_falsy(case):
+    t = Tally()
+    fails, points = (falsy_dp_case if case["level"] == "dp" else falsy_dict_case)(case)
+    for op, nontrivial, outcome in points:
+        t.case(key=["falsy", op, case["key"], case["z"]], nontrivial=nontrivial, outcome=[op, case["key"], outcome])
+        t.extra["falsy_points"] += 1
+        t.extra["falsy_points_on_a_stored_nonzero_value"] += int(nontrivial and ("alone" not in op) and ("optimized_keys" not in op))
+    for cls, msg in fails:
+        t.fail(cls, case, msg)
+    return t
+
+
+def build_falsy_items(ctx, eps):
+    items = []
+    for key in falsy_keys():
+        for i, zn in enumerate(FALSY):
+            items.append({"part": "falsy", "level": "dict", "key": key, "z": zn, "first": i == 0, "seed": ctx.seed})
+    if eps["reconstruct(override_aberration_coefs)"][1]:
+        dp_keys = [k for k, (canon, _n, _m) in falsy_keys().items() if canon in FALSY_DP_BASE]
+        for key in sorted(dp_keys, key=lambda k: falsy_keys()[k][0]):  # same canonical symbol adjacent: one reference build per worker
+            for zn in FALSY_DP:
+                items.append({"part": "falsy", "level": "dp", "key": key, "z": zn, "seed": ctx.seed})
+    return items
+
+
 # ----------------------------------------------------------------------------- part C: fit lattice
-FIT_C10 = [-200.0, -50.0, 30.0, 150.0]
+FIT_C10 =[-200.0, -50.0, 30.0, 150.0]
 FIT_C12 = [0.0, 10.0, 40.0]
 FIT_PHI = [-1.2, -0.4, 0.0, 0.7, 1.4]
 FIT_ROT = [-1.5, -0.8, 0.0, 0.3, 1.2, 1.55]
@@ -1786,6 +2005,11 @@ def run(ctx):
     aitems = build_alias_items(ctx, eps)
     ctx.say(f"part B: {len(aitems)} alias points over {sum(1 for v in eps.values() if v[1])} entry points")
     mB = ctx.pmap(eval_alias, aitems, chunk=2, label="alias")
+    # ---- B0: an explicit zero of any numeric type is a value (only None is unset), alone and on top of a stored non-zero value
+    zitems = build_falsy_items(ctx, eps)
+    mZ = ctx.pmap(eval_falsy, zitems, chunk=4, label="explicit zeros")
+    if mZ.extra["falsy_points_on_a_stored_nonzero_value"] < 1000:
+        raise Broken(f"explicit-zero lattice degenerate: {mZ.extra['falsy_points_on_a_stored_nonzero_value']} of {mZ.extra['falsy_points']} points replace a stored non-zero value visibly")
     # ---- C
     dets = [0, 1]
     masks = FIT_MASKS
@@ -1844,6 +2068,13 @@ def run(ctx):
             "label_order": [nm for nm, _ in lists] + ["every ordered pair of distinct labels (600)"] + [f"least-squares fit: {v[0]} ({v[3]})" for v in ORDER_FIT_VARIANTS],
             "aliases": {a: f"{v[0]} x {v[1]:+g}" for a, v in MY_ALIASES.items()},
             "alias_values_d": DVALS,
+            "explicit_zeros": {
+                "spellings": list(falsy_keys()),
+                "zero_values": list(FALSY) + ["None (must mean unset)"],
+                "operations": ["validate_aberration_coefficients (alone / in a full set)", "standardize_aberration_coefs (alone / in a full set)", "HyperparameterState: override over initial, optimized over initial, override over optimized, initial full set, optimized_keys", "reconstruct(override_aberration_coefs) on an object built with " + json.dumps(FALSY_DP_BASE) + f" (values {FALSY_DP}, kernels prlx and ssb)"],
+                "stored_set": "all 25 symbols non-zero (seeded magnitudes per order " + json.dumps(FALSY_ORDER_C) + "), surfaces compared on the 9x14 grid with the reference series",
+                "left_out": "bool (a flag is not a coefficient value); the probe_params setter replaces the whole set and fills absent symbols with zero, so a dropped zero is unobservable there",
+            },
             "entry_points": [n for n, v in eps.items() if v[1]],
             "fit": {"C10": FIT_C10, "C12": FIT_C12, "phi12": FIT_PHI, "rotation": FIT_ROT, "detectors": [list(d[0]) for d in FIT_DETS], "masks": FIT_MASKS},
             "fit_content": {
@@ -1863,6 +2094,8 @@ def run(ctx):
         label_lists_not_ascending=int(mO.extra["label_lists_not_ascending"]),
         fit_order_points=int(mFO.n),
         alias_points=int(mB.n),
+        explicit_zero_points=int(mZ.n),
+        explicit_zero_points_replacing_a_stored_nonzero_value=int(mZ.extra["falsy_points_on_a_stored_nonzero_value"]),
         fit_points=int(mC.n),
         fit_content_points=int(mC2.n),
         fit_content_points_one_cartesian_component_exactly_zero=int(mC2.extra["fit_content_points_one_component_zero"]),
@@ -1890,6 +2123,10 @@ def replay(ctx, case):
     part = case.get("part") or ("surface" if "family" in case else None)
     if part == "alias":
         fails, nontrivial, outcome = alias_case(case, verbose=True)
+        for cls, msg in fails:
+            ctx.fail(cls, case, msg)
+    elif part == "falsy":
+        fails, points = (falsy_dp_case if case["level"] == "dp" else falsy_dict_case)(case, verbose=True)
         for cls, msg in fails:
             ctx.fail(cls, case, msg)
     elif part == "fit":
